@@ -75,6 +75,8 @@ def check(rep, an, tier):
         F.sign_attrs(rep, res, entry)
         F.hygiene(rep, res, entry)
         R.rule_rowsep(rep, res, entry)
+        if cfg["bs"] == "sym":
+            R.rule_stack(rep, res, entry)
     # estimator wrapper
     for Kk in (["vec", "mat"] if tier == "quick" else ["vec", "mat", "scalar"]):
         for internal in (False, True):
